@@ -348,6 +348,66 @@ def run_witness(binpath, w):
             return {"cmd": "reftest-lsp codeAction / check --fix <%d programs>" % len(progs), "exit": 0, "stdout": "", "stderr": "",
                     "reproduced": bool(bad_items), "why": "; ".join(bad_items[:4])[:1800], "n_inputs": len(progs),
                     "failing_inputs": [progs[i] for i, r in enumerate(res) if r][:6]}
+        elif kind == "wrap-dbg-corpus":
+            # C21 bounded stand-in: wrap_in_dbg at every cursor position (every char boundary, empty selection) of each
+            # program; each distinct wrapped program must parse, print the same standard output and end with the same
+            # status as the original (dbg writes to standard error only)
+            from concurrent.futures import ThreadPoolExecutor
+            jobs = []
+            for pi, src_ in enumerate(w["input"]):
+                f0 = os.path.join(tmpdir, "w%d.gdn" % pi)
+                open(f0, "w", encoding="utf-8").write(src_)
+                b = src_.encode("utf-8")
+                offs = [i for i in range(len(b) + 1) if i == len(b) or (b[i] & 0xC0) != 0x80]
+                jobs.append((pi, f0, offs))
+            bad_items, failing, n_wrapped = [], [], 0
+            for (pi, f0, offs) in jobs:
+                try:
+                    r0 = subprocess.run([binpath, "run", f0], capture_output=True, text=True, timeout=60, cwd=tmpdir)
+                except subprocess.TimeoutExpired:
+                    bad_items.append("program %d: the original timed out" % pi)
+                    continue
+
+                def wrap(o, f0=f0):
+                    try:
+                        return o, subprocess.run([binpath, "reftest-wrap-in-dbg", f0, str(o), str(o)], capture_output=True, text=True, timeout=60, cwd=tmpdir)
+                    except subprocess.TimeoutExpired:
+                        return o, None
+                with ThreadPoolExecutor(max_workers=8) as ex:
+                    wrapped = list(ex.map(wrap, offs))
+                seen = {}
+                for o, p in wrapped:
+                    if p is None or p.returncode == 101 or "panicked at" in (p.stderr or ""):
+                        bad_items.append("program %d offset %d: wrap_in_dbg crashed or timed out" % (pi, o))
+                        failing.append(w["input"][pi])
+                        continue
+                    if p.returncode != 0:
+                        continue          # no expression at this position
+                    seen.setdefault(p.stdout, o)
+
+                def run(item, pi=pi):
+                    text, o = item
+                    f1 = os.path.join(tmpdir, "w%d_at%d.gdn" % (pi, o))
+                    open(f1, "w", encoding="utf-8").write(text)
+                    try:
+                        return o, text, subprocess.run([binpath, "run", f1], capture_output=True, text=True, timeout=60, cwd=tmpdir)
+                    except subprocess.TimeoutExpired:
+                        return o, text, None
+                with ThreadPoolExecutor(max_workers=8) as ex:
+                    ran = list(ex.map(run, list(seen.items())))
+                n_wrapped += len(ran)
+                for o, text, r1 in ran:
+                    if r1 is None:
+                        why = "timed out"
+                    elif (r1.stdout, r1.returncode) != (r0.stdout, r0.returncode):
+                        why = "prints %r / status %s, the original %r / status %s" % (r1.stdout[-120:], r1.returncode, r0.stdout[-120:], r0.returncode)
+                    else:
+                        continue
+                    bad_items.append("program %d wrapped at offset %d (%r): %s" % (pi, o, text[max(0, o - 20):o + 30], why))
+                    failing.append(text)
+            return {"cmd": "reftest-wrap-in-dbg / run <%d programs, %d wrapped variants>" % (len(jobs), n_wrapped), "exit": 0, "stdout": "", "stderr": "",
+                    "reproduced": bool(bad_items) or n_wrapped < w.get("min_inputs", 1), "why": ("; ".join(bad_items[:4]) if bad_items else "only %d wrapped variants" % n_wrapped)[:1800],
+                    "n_inputs": n_wrapped, "failing_inputs": failing[:6]}
         elif kind == "check-matrix":
             # a list of small programs, each with the verdict `garden check` must give
             # (expect_error: True = at least one error diagnostic, False = none)
